@@ -52,12 +52,13 @@ type State struct {
 	objHavocT []types.Type // static types of the havocked objects (parallel to objHavoc)
 	objHavoc []string // objects whose every field was havocked (modifies `object x`): applies to field arrays touched later too
 	escaped map[types.Object]string // struct-typed locals whose address was taken: they live in the heap at this reference
+	panicking bool // this state is a panic unwinding through the deferred calls (recover() stops it)
 	loopEntry map[int]*State // per loop ordinal: the state in which the loop was first reached
 	entryLen int  // number of path-condition conjuncts that describe the entry state (requires, repinv, axioms)
 }
 
 func (st *State) clone() *State {
-	n := &State{epoch: st.epoch, wm: st.wm, ctl: st.ctl, label: st.label, rets: st.rets, retSite: st.retSite, old: st.old, entryLen: st.entryLen}
+	n := &State{epoch: st.epoch, wm: st.wm, ctl: st.ctl, label: st.label, rets: st.rets, retSite: st.retSite, old: st.old, entryLen: st.entryLen, panicking: st.panicking}
 	n.vars = make(map[types.Object]*Val, len(st.vars))
 	for k, v := range st.vars {
 		n.vars[k] = v
